@@ -47,11 +47,11 @@ TECH_B = ('bounded stand-in (exhaustive enumeration against an independent brute
           '+ contract-based deductive verification of the first-order building blocks')
 NOTE_B = ('The core claim rests on graph theorems (Chickering labelling, Dor-Tarsi, Meek completeness) that are out of reach of first-order VCs here; '
           'it is decided only on the enumerated domain (bound stated in the evidence). Oracles in vkb/oracles.py share no code with sempler.')
-PROPS['C07'] = dict(level='exploration', functions=[], bounded=['vkb.c07'], design='DESIGN.md §4 C07', technique=TECH_B, note=NOTE_B,
+PROPS['C07'] = dict(level='exploration', functions=[U + 'is_consistent_extension', U + 'vstructures', U + 'skeleton', U + 'only_directed', U + 'is_dag'], bounded=['vkb.c07'], design='DESIGN.md §4 C07', technique=TECH_B, note=NOTE_B,
                     claim='mec / all_dags / is_consistent_extension / chain shortcut are compared with a brute-force enumeration of Markov equivalence classes and consistent extensions on every DAG and every PDAG with acyclic directed part up to the stated bound (quick p<=4, thorough p<=5, chains to 12), incl. signed-weight inputs.')
 PROPS['C08'] = dict(level='exploration', functions=[], bounded=['vkb.c08'], design='DESIGN.md §4 C08', technique=TECH_B, note=NOTE_B,
                     claim='dag_to_cpdag / pdag_to_cpdag are compared entry-wise with the essential graph computed by brute force for every DAG / PDAG up to the bound; ValueError iff no extension exists.')
-PROPS['C09'] = dict(level='exploration', functions=[], bounded=['vkb.c09'], design='DESIGN.md §4 C09', technique=TECH_B, note=NOTE_B,
+PROPS['C09'] = dict(level='exploration', functions=[U + 'rule_1', U + 'rule_2', U + 'rule_3', U + 'rule_4'], bounded=['vkb.c09'], design='DESIGN.md §4 C09', technique=TECH_B, note=NOTE_B,
                     claim='pdag_to_dag / has_consistent_extension / maximally_orient are compared with the brute-force extension set of every PDAG up to the bound (soundness, completeness, unchanged extension set, inputs untouched).')
 PROPS['C10'] = dict(level='exploration', functions=[], bounded=['vkb.c10'], design='DESIGN.md §4 C10', technique=TECH_B, note=NOTE_B,
                     claim='imec / dag_to_icpdag / pdag_to_icpdag / chain shortcut are compared with the brute-force interventional class for every DAG x target set up to the bound.')
@@ -60,6 +60,23 @@ PROPS['C15']['note'] += ' semi_directed_paths / separates / chain_component / an
 PROPS['C18'] = dict(level='exploration', functions=[], bounded=['vkb.c18'], design='DESIGN.md §4 C18', technique=TECH_B,
                     note='Greedy insertion always reaching the requested count needs a graph lemma that is not mechanised: bounded only.',
                     claim='add_edges / remove_edges are run on every DAG up to the bound (binary and signed), every count from 0 to one past the feasible maximum and several seeds: exact edge counts, sub/supergraph, acyclicity, ValueError exactly when infeasible, determinism, input untouched.')
+LGM = 'sempler.lganm.'
+PROPS['C01'] = dict(level='proof', functions=[LGM + 'LGANM.sample', LGM + 'LGANM.__init__'], case_filter={LGM + 'LGANM.sample': {'population': True}}, bounded_only=[LGM + '_parse_interventions'], bounded=[], design='DESIGN.md §4 C01', technique=TECH,
+                    note=NOTE + ' A-LINALG; L-UNITRI (I - W^T non-singular for a DAG) and L-GAUSS (the law of an acyclic linear-Gaussian SEM is N(mean, cov) with those moments) are cited, not mechanised. The contract of _parse_interventions is assumed at its call sites and checked only by the bounded tier.',
+                    claim='LGANM.sample(population=True) is proved, for every model size, every do/noise/shift dict (tuple or scalar parameters, any overlap, {} or None), to work on parameters mu\', var\', W\' that are entry by entry the intervened ones (do overrides noise overrides shift; scalar = variance 0; do-targets lose their incoming edges) and to return mean, cov with (I-W\'^T) mean = mu\' and (I-W\'^T) cov (I-W\'^T)^T = diag(var\'); the model is not modified and the result is fresh.')
+ALL_CONTRACTED = sorted(set(LEAF_REL + STRUCT + TOPO + [U + 'rule_1', U + 'rule_2', U + 'rule_3', U + 'rule_4', U + 'is_consistent_extension', U + 'matrix_block', ND + '__init__', ND + 'marginal', ND + 'conditional', ND + 'regress', ND + 'mse', ND + 'sample',
+                                                            G + 'dag_avg_deg', G + 'dag_full', G + 'intervention_targets', LGM + 'LGANM.__init__', LGM + 'LGANM.sample',
+                                                            'sempler.noise.normal', 'sempler.noise.uniform', 'sempler.noise.laplace', 'sempler.noise.zero', 'sempler.functions.null']))
+PROPS['C13'] = dict(level='proof', functions=[G + 'dag_avg_deg', G + 'dag_full', G + 'intervention_targets', LGM + 'LGANM.__init__', LGM + 'LGANM.sample', ND + 'sample'],
+                    kinds=('noninterference', 'no-global-write', 'nondegenerate'), bounded=[], design='DESIGN.md §4 C13', technique=TECH + '; non-interference obligations over the RNG model',
+                    note=NOTE + ' A-RNG: a generator is a deterministic function of its seed; draws are functions of (state, arguments). ANM.sample, split_data, add_edges and remove_edges are not under deductive contract yet: they are decided by the bounded stand-in (call, perturb the global generator, call again, compare bytes).',
+                    claim='for the APIs under contract the value returned with an int seed (0 included, because `is not None` guards are executed symbolically over all ints) is proved to contain no term depending on numpy\'s global generator state or on fresh entropy, private-generator users never touch the global generator, and unseeded results do depend on the incoming state (non-degenerate).')
+PROPS['C14'] = dict(level='proof', functions=ALL_CONTRACTED, kinds=('frame', 'fresh'), bounded=[], design='DESIGN.md §4 C14', technique=TECH + '; frame and freshness obligations from the heap model',
+                    note=NOTE + ' A-VIEWCOPY. Only the functions under deductive contract carry frame obligations; the remaining public functions and call histories are decided by the bounded stand-in (byte snapshots, shares_memory probes).',
+                    claim='every function under contract is proved, on every path, to leave each argument object and every object reachable from self unmodified (modifies-clauses excepted: constructors write self, samplers advance the global generator) and to return objects that share no storage with arguments or model state; immutability under all call histories follows by induction over calls.')
+PROPS['C04'] = dict(level='proof', functions=[ND + 'sample', LGM + 'LGANM.sample', 'sempler.noise.normal'], bounded=[], case_filter={LGM + 'LGANM.sample': {'population': False}}, design='DESIGN.md §4 C04', technique=TECH,
+                    note=NOTE + ' The distributional reading (i.i.d. rows N(mean, cov), 1/sqrt(n) deviations, equality in law of ANM and LGANM) is A-RNG + L-GAUSS: assumed, not decided by this family; no statistical test is part of the proof.',
+                    claim='finite samples are proved to be numpy\'s multivariate normal applied to exactly the population parameters: NormalDistribution.sample(n, rs) = mvn(state, self.mean, self.covariance, n) with the state reseeded iff a seed is given, and LGANM.sample(population=False) returns that draw for a distribution object that satisfies the same intervened structural equations as the population result (shape n x p); noise.normal uses standard deviation sqrt(var).')
 NOT_YET = {}
 
 GLOBAL_ASSUMPTIONS = [
